@@ -102,4 +102,31 @@ theorem Ob_OrderedMap_PopIterate_heap_post (m : OMap r) (s : MHSt r) :
     have ht : id ∉ (md_ids m.d m.root).tail := fun h => hid (by rw [mdp_ids_cons]; exact List.mem_cons_of_mem _ h)
     cases hi : m.isInlined <;> simp [mdp_topPost, hi, mdp_post, ht, hne]
 
+/-! ### non-vacuity: the depth-1 map of `TransMapDescentPop.lean` (two data slabs, count 2) -/
+
+def mdp_exMap : OMap 0 := ⟨1, mdp_exM, 0, 2, 0⟩
+
+example (T : Nat) (eb : DEnvB 0) (rs : DRestruct 0) :
+    OrderedMap_Count (envD T eb rs) (md_map mdp_exMap mdp_exSt) = some 2 :=
+  Ob_OrderedMap_Count_heap T eb rs mdp_exMap mdp_exSt
+
+/-- both entries popped last to first, both children removed, count 0, the new empty root (size 2 + 8) stored under the
+    old root identifier with the old type and seed -/
+example (T : Nat) (eb : DEnvB 0) (rs : DRestruct 0) :
+    ∃ (m' : OMap 0) (s' : MHSt 0),
+      OrderedMap_PopIterate (envD T eb rs) 1 (md_map mdp_exMap mdp_exSt) = some (none, md_map m' s') ∧
+      OrderedMap_Count (envD T eb rs) (md_map m' s') = some 0 ∧
+      s'.popped = [(mdp_exKB, default), (mdp_exKA, default)] ∧
+      s'.ctx.eff = [.remove ⟨1, 3⟩, .remove ⟨1, 2⟩, .store ⟨1, 1⟩] ∧
+      s'.heap ⟨1, 2⟩ = none ∧ s'.heap ⟨1, 3⟩ = none ∧
+      s'.heap ⟨1, 1⟩ = some (.dataSlab { header := ⟨⟨1, 1⟩, 10, 0⟩, elements := ⟨[], [], 8, 0⟩,
+                                          extraData := some (0, 0, 0) }) := by
+  obtain ⟨h1, h2, h3, h4, h5⟩ := mdp_ex_hyps
+  have hpost := Ob_OrderedMap_PopIterate_heap_post mdp_exMap mdp_exSt
+  obtain ⟨hc, hp, _, hh, _, hg, _⟩ := hpost
+  refine ⟨_, _, Ob_OrderedMap_PopIterate_heap T eb rs 1 mdp_exMap mdp_exSt (Nat.le_refl _) h1 h2 h3 h4 h5,
+    Ob_OrderedMap_Count_heap T eb rs _ _, hp, ?_, hg ⟨1, 2⟩ (by decide) (by decide), hg ⟨1, 3⟩ (by decide) (by decide),
+    hh rfl⟩
+  rw [hc]; rfl
+
 end Atree.TransEq
